@@ -425,4 +425,9 @@ EXPLANATION = (
     'on push, pop, cancel and reschedule. C10.CONST (decided): 75 %, 10 %, 4 start-up queries, 20-120 ms, S*S back-off, rescue time as '
     'a linear form. Not decided: lateness bounds and minimum spacing over all learn orders [X].'
 )
+EXPLANATION_ADDENDUM = (
+    ' C10.PAIR also decides that the map entry of a query taken from the heap is removed before its rescue entry is stored, that every due query is asked for and rescued, and the two-sided churn window.'
+)
+EXPLANATION = EXPLANATION + EXPLANATION_ADDENDUM
+
 RULES = [rearm, heapmin, aliaskey, pair, const]
